@@ -43,3 +43,110 @@ theorem recover_window (c : Cong) (w : Int) (conn v : Bool) (now : Nat)
     · exact ⟨h1, h2, Int.le_refl _⟩
 
 end Srtla.Conn
+
+/-! ## Appended (round 2): connection ids are never changed by the ACK/NAK fan-out -/
+namespace Srtla.Conn
+
+
+theorem connId_register (c : Conn) (s : Int) (t : Nat) : (c.register s t).connId = c.connId := rfl
+theorem connId_srtAck (c : Conn) (a : Int) (now : Nat) : (c.srtAck a now).1.connId = c.connId := by
+  unfold Conn.srtAck; split <;> rfl
+theorem connId_nak (c : Conn) (s : Int) (now : Nat) : (c.nak s now).1.connId = c.connId := by
+  unfold Conn.nak; split <;> rfl
+theorem connId_srtlaAck (c : Conn) (s : Int) (cl : Bool) (now : Nat) :
+    (c.srtlaAck s cl now).1.connId = c.connId := by
+  unfold Conn.srtlaAck; split
+  · split <;> rfl
+  · rfl
+theorem connId_ackGlobal (c : Conn) : c.ackGlobal.connId = c.connId := by
+  unfold Conn.ackGlobal; split <;> rfl
+
+def idsOf (ls : Links) : List Nat := ls.map (·.connId)
+
+theorem idsOf_updateAt (ls : Links) (i : Nat) (f : Conn → Conn)
+    (hf : ∀ c, ls[i]? = some c → (f c).connId = c.connId) :
+    idsOf (updateAt ls i f) = idsOf ls := by
+  apply List.ext_getElem?
+  intro j
+  simp only [idsOf, updateAt, List.getElem?_map, List.getElem?_mapIdx]
+  cases hj : ls[j]? with
+  | none => rfl
+  | some c =>
+    simp only [Option.map_some]
+    split
+    · rename_i h; subst h; rw [hf c hj]
+    · rfl
+
+theorem idsOf_map (ls : Links) (f : Conn → Conn) (hf : ∀ c, (f c).connId = c.connId) :
+    idsOf (ls.map f) = idsOf ls := by
+  simp only [idsOf, List.map_map]
+  apply List.map_congr_left
+  intro c _
+  exact hf c
+
+theorem idsOf_others (ls : Links) (j skip : Nat) (s : Int) (cl : Bool) (now : Nat) :
+    idsOf (srtlaAckOthers ls j skip s cl now) = idsOf ls := by
+  induction ls generalizing j with
+  | nil => rfl
+  | cons c rest ih =>
+    unfold srtlaAckOthers
+    split
+    · simp only [idsOf, List.map_cons] at ih ⊢; rw [ih]
+    · dsimp only
+      split
+      · simp only [idsOf, List.map_cons, connId_srtlaAck]
+      · simp only [idsOf, List.map_cons] at ih ⊢; rw [ih]
+
+theorem idsOf_nakScan (ls : Links) (s : Int) (now : Nat) : idsOf (nakScan ls s now).1 = idsOf ls := by
+  induction ls with
+  | nil => rfl
+  | cons c rest ih =>
+    unfold nakScan
+    dsimp only
+    split
+    · simp only [idsOf, List.map_cons, connId_nak]
+    · simp only [idsOf, List.map_cons] at ih ⊢; rw [ih]
+
+theorem idsOf_attributeNak (ls : Links) (trk : Tracker) (n now : Nat) :
+    idsOf (attributeNak ls trk n now).1 = idsOf ls := by
+  unfold attributeNak
+  dsimp only
+  split
+  · split
+    · split
+      · try dsimp only
+        split
+        · rename_i _ c hc _
+          exact idsOf_updateAt ls _ _ (fun d hd => by
+            rw [hc] at hd; cases hd; exact connId_nak _ _ _)
+        · rfl
+      · rfl
+    · exact idsOf_nakScan ls _ now
+  · exact idsOf_nakScan ls _ now
+
+theorem idsOf_evSrtlaAck (ls : Links) (idx : Nat) (s : Int) (cl : Bool) (now : Nat) :
+    idsOf (evSrtlaAck ls idx s cl now) = idsOf ls := by
+  unfold evSrtlaAck
+  dsimp only
+  rw [idsOf_map _ _ connId_ackGlobal]
+  split
+  · rfl
+  · try dsimp only
+    split
+    · rename_i _ c hc _
+      exact idsOf_updateAt ls _ _ (fun d hd => by
+        rw [hc] at hd; cases hd; exact connId_srtlaAck _ _ _ _)
+    · exact idsOf_others ls 0 idx s cl now
+
+theorem findIdx_ids (ls : Links) (cid : Nat) :
+    (idsOf ls).findIdx? (· == cid) = ls.findIdx? (·.connId == cid) := by
+  induction ls with
+  | nil => rfl
+  | cons c rest ih =>
+    simp only [idsOf, List.map_cons, List.findIdx?_cons] at ih ⊢
+    split
+    · rfl
+    · rw [ih]
+
+
+end Srtla.Conn
